@@ -442,6 +442,12 @@ func (m *Manager) addTCPConnection(allocation *Allocation, conn net.Conn) (proto
 	m.lock.Lock()
 	defer m.lock.Unlock()
 
+	// The allocation may have been closed while the peer connection was being
+	// established; nothing would ever close a connection stored in it now.
+	if allocation.isClosed() {
+		return 0, errAllocationClosed
+	}
+
 	for _, a := range m.allocations {
 		if _, ok := a.tcpConnections[connectionID]; ok {
 			return 0, errFailedToGenerateConnectionID
